@@ -310,7 +310,7 @@ def cert_case(ctx, begin):
 
 def blocks(tier, seed):
     q = tier == 'quick'
-    maxlen = 3 if q else 6
+    maxlen = 4 if q else 6
     singles = [(p, c, s) for p in WINDOW for c in (True, False) for s in SIGNERS]
     cc = chain_cases(maxlen)
     return [
@@ -333,7 +333,7 @@ def meta(tier, seed):
         rule='products of per-link settings executed through the real builders and run_auth_scripts with a pinned virtual clock; two '
              'oracles (delegation model from the statement, ref.refvm on the same bytes)',
         states_meaning='distinct (lock kind, per-link settings, clock, signer, flags) cases; transitions = scripts run',
-        bounds={'chain_length': 3 if q else 6, 'slack_threshold': THR},
+        bounds={'chain_length': 4 if q else 6, 'slack_threshold': THR},
         assumptions=['run_auth_scripts cannot change ts_threshold: the default slack 60 is used',
                      'Ed25519 unforgeability for the rejection direction'],
     )
